@@ -174,7 +174,8 @@ def ncf2uamiv(ncffile, outpath):
         # year (two digit years 70-69: leap iff divisible by four)
         ylen = np.where((date_e // 1000) % 4 == 0, 366, 365)
         date_e = np.where(date_e % 1000 > ylen,
-                          (date_e // 1000 + 1) % 100 * 1000 + 1, date_e)
+                          (date_e // 1000 + 1) % 100 * 1000 +
+                          date_e % 1000 - ylen, date_e)
     time_hdr['ibdate'] = date_s
     time_hdr['btime'] = time_s
     time_hdr['iedate'] = date_e
